@@ -79,15 +79,17 @@ func (h *legacyHandler) QueueResourcePack(info *Info) error {
 	defer h.Unlock()
 	h.outstandingPacks.PushBack(info)
 	if h.outstandingPacks.Len() == 1 {
-		return h.tickResourcePackQueue()
+		return h.tickResourcePackQueue(h.shouldDisconnectForForcePack)
 	}
 	return nil
 }
 
 // with comments form java code
-func (h *legacyHandler) tickResourcePackQueue() error {
-	h.Lock()
-	defer h.Unlock()
+//
+// The calling function must hold the lock (sync.RWMutex is not reentrant).
+func (h *legacyHandler) tickResourcePackQueue(
+	shouldDisconnectForForcePack func(e *PlayerResourcePackStatusEvent) bool,
+) error {
 	queued, ok := h.outstandingPacks.Front()
 	if ok {
 		// Check if the player declined a resource pack once already
@@ -104,7 +106,7 @@ func (h *legacyHandler) tickResourcePackQueue() error {
 					Hash:   queued.Hash,
 					Status: DeclinedResponseStatus,
 				}
-				_, err := h.OnResourcePackResponse(resBundle)
+				_, err := h.onResourcePackResponseLocked(resBundle, shouldDisconnectForForcePack)
 				if err != nil {
 					return err
 				}
@@ -132,7 +134,14 @@ func (h *legacyHandler) onResourcePackResponse(
 ) (bool, error) {
 	h.Lock()
 	defer h.Unlock()
+	return h.onResourcePackResponseLocked(bundle, shouldDisconnectForForcePack)
+}
 
+// The calling function must hold the lock.
+func (h *legacyHandler) onResourcePackResponseLocked(
+	bundle *ResponseBundle,
+	shouldDisconnectForForcePack func(e *PlayerResourcePackStatusEvent) bool,
+) (bool, error) {
 	peek := bundle.Status.Intermediate()
 	var queued *Info
 	if peek {
@@ -171,7 +180,7 @@ func (h *legacyHandler) onResourcePackResponse(
 
 	var err error
 	if !peek {
-		err = h.tickResourcePackQueue()
+		err = h.tickResourcePackQueue(shouldDisconnectForForcePack)
 	}
 	handled, err2 := h.HandleResponseResult(queued, bundle)
 	return handled, errors.Join(err, err2)
